@@ -16,6 +16,7 @@ from ..orch import h
 from .c02 import filter_features
 
 ID = "C12"
+TECHNIQUE = 'runtime monitoring - limit oracle over ordered answers and store dumps: cap per filter and per REQ, recency (no omitted event newer than a sent one), no truncation when matches fit; max_limit values in separate processes, purple import order'
 LEVEL = "exploration"
 RULE = (
     "cases = (backend, max_limit in {7, 25} - one worker process per value because the relay captures it at import "
